@@ -293,6 +293,15 @@ func (w *World) StartOperator(max, delay int) {
 	})
 }
 
+// ReloadDuring makes the operator reload the configuration k scheduler steps from now, i.e. while the request the
+// caller is about to issue is in flight (faults are placed inside operations, not in idle time).
+func (w *World) ReloadDuring(k int) {
+	w.Sim.Go("operator", false, func() {
+		Delay(k)
+		w.OperatorReload()
+	})
+}
+
 // Violate records a violation.
 func (w *World) Violate(sig, format string, args ...any) {
 	if len(w.viol) < 20 {
